@@ -9,7 +9,8 @@ CONSTANTS
   MaxOps,       \* bound on the number of operations of a behaviour (0 = unbounded)
   Emit,         \* "none" | "states" | "classes" : which behaviours are printed for replay
   RootViaSet,   \* subset of RootVias used for root edits
-  WithBarrierOnly, WithFinalize, WithDrop, WithMany
+  WithBarrierOnly, WithFinalize, WithDrop, WithMany,
+  FaultAts      \* set of trace-call indices at which a trace panic may be injected ({} = no faults)
 
 VARIABLES h, hist
 
@@ -123,6 +124,38 @@ CallA ==
   \/ \E b \in Budgets \cup {0}, g \in Grans, cont \in BOOLEAN :
        Do(Call(h, "collect_debt", b, g, cont), [op |-> "call", kind |-> "collect_debt", b |-> b, g |-> g, cont |-> cont])
 
+\* a collection call during which the k-th Collect::trace invocation panics (C11)
+FaultPos == 0..MaxKids \cup {AllPos}
+CallFaultA ==
+  \E at \in FaultAts, pos \in FaultPos :
+    LET f == [at |-> at, pos |-> pos] IN
+    \/ \E kind \in {"finish_marking", "finish_cycle"} :
+         Do(CallF(h, kind, 0, "P1", FALSE, f),
+            [op |-> "call", kind |-> kind, b |-> 0, g |-> "P1", cont |-> FALSE, fault |-> f])
+    \/ \E kind \in {"mark_debt", "collect_debt"}, b \in Budgets, g \in Grans :
+         Do(CallF(h, kind, b, g, FALSE, f),
+            [op |-> "call", kind |-> kind, b |-> b, g |-> g, cont |-> FALSE, fault |-> f])
+
+\* a callback that panics after its last step: the arena stays as the callback left it, except
+\* that map_root / try_map_root consume the arena (everything is dropped during the unwind)
+PanicCbA ==
+  /\ FaultAts # {}
+  /\ \/ \E o \in FreeIds(h), k \in Kinds :
+          Do(AllocTemp(h, o, k), [op |-> "alloc_temp", o |-> o, k |-> k, panic |-> TRUE])
+     \/ /\ Len(h.rootS) < MaxKids
+        /\ \E o \in FreeIds(h), k \in Kinds, via \in RootViaSet :
+             Do(IF via = "mutate_root" THEN AllocRoot(h, o, k) ELSE DropAll(h),
+                [op |-> "alloc_root", o |-> o, k |-> k, via |-> via, panic |-> TRUE])
+     \/ \E p \in A, c \in A :
+          /\ c \notin Kids(h, p) /\ HasRoom(h, p) /\ h.kind[p] = "N"
+          /\ Do(Link(h, p, c, "borrow_mut"), [op |-> "link", p |-> p, c |-> c, path |-> "borrow_mut", panic |-> TRUE])
+     \/ \* try_map_root whose callback returns Err: the arena is dropped
+        /\ "try_map_root" \in RootViaSet
+        /\ Do(DropAll(h), [op |-> "failed_map_root"])
+     \/ \* Arena::new / try_new whose callback allocates n objects and then fails: another,
+        \* short-lived arena; this one is not affected
+        \E n \in 0..2, mode \in {"panic", "err"} : Do(h, [op |-> "failed_new", n |-> n, mode |-> mode])
+
 \* finish_marking().unwrap().start_sweeping()
 StartSweepingA ==
   /\ h.phase # "Sweep"
@@ -140,8 +173,8 @@ DropArenaA == WithDrop /\ Do(DropAll(h), [op |-> "drop_arena"])
 
 Mutator == \/ AllocRootA \/ AllocIntoA \/ AllocTempA \/ LinkA \/ UnlinkA \/ RootAddA \/ RootRemoveA
            \/ WLinkA \/ WUnlinkA \/ RootWAddA \/ RootWRemoveA \/ BarrierOnlyA \/ LinkManyA \/ LinkByManyA
-           \/ UpgradeStoreA
-Collector == CallA \/ StartSweepingA \/ FinalizeA
+           \/ UpgradeStoreA \/ PanicCbA
+Collector == CallA \/ StartSweepingA \/ FinalizeA \/ CallFaultA
 
 Next == Running /\ (Mutator \/ Collector \/ DropArenaA)
 
@@ -261,7 +294,8 @@ PropertyInvs == /\ C01_NoLostReachable /\ AccSafe /\ C02_Exact /\ C04_DropAll
 (* Action properties.                                                      *)
 (***************************************************************************)
 LastOp == hist'[Len(hist')]
-IsMutatorStep == hist' # hist /\ LastOp.op \notin {"call", "start_sweeping", "finalize", "drop_arena"}
+IsMutatorStep == hist' # hist /\ LastOp.op \notin {"call", "start_sweeping", "finalize", "drop_arena", "failed_map_root", "failed_new"}
+                                /\ h'.phase # "Dropped"
 
 \* C03: a callback never destructs or releases anything, and never changes the phase except
 \* Marked -> Marking (C08)
@@ -296,13 +330,14 @@ PhaseOK(kind, before, after) ==
 C08_PhaseProtocol ==
   [][hist' # hist =>
        LET op == LastOp  b == ObsPhase(h)  a == ObsPhase(h') IN
-       /\ op.op = "call" => PhaseOK(op.kind, b, a)
+       \* (calls with an armed trace fault may unwind: the protocol speaks about calls that return)
+       /\ op.op = "call" /\ "fault" \notin DOMAIN op => PhaseOK(op.kind, b, a)
        /\ op.op = "start_sweeping" => a = "Sweeping"
        /\ op.op = "finalize" => a \in {"Marked", "Marking"}
        \* sweeping begins only from a fully marked arena: a step that enters Sweeping from
        \* outside must pass through Marked, which Loop guarantees; checked structurally by
        \* SweepRegion at the first Sweeping state.
-       /\ (op.op = "call" /\ op.kind \in {"mark_debt", "finish_marking"} /\ b # "Sweeping")
+       /\ (op.op = "call" /\ "fault" \notin DOMAIN op /\ op.kind \in {"mark_debt", "finish_marking"} /\ b # "Sweeping")
             => (ReturnsMarked(h') <=> a = "Marked")]_vars
 
 -----------------------------------------------------------------------------
@@ -328,12 +363,14 @@ PosOf(s, o) == IF s.phase # "Sweep" \/ o = NoObj THEN "-" ELSE IF o \in Unswept(
 Fld(op, f) == IF f \in DOMAIN op THEN op[f] ELSE NoObj
 ClassOf(s, op, s2) ==
   LET p == Fld(op, "p")  c == IF "c" \in DOMAIN op THEN op.c ELSE IF "t" \in DOMAIN op THEN op.t ELSE Fld(op, "o") IN
-  IF op.op \in {"call", "start_sweeping", "finalize", "drop_arena"}
-  THEN <<op.op, Fld(op, "kind"), Fld(op, "g"), Fld(op, "cont"), ObsPhase(s), ObsPhase(s2),
+  IF op.op \in {"call", "start_sweeping", "finalize", "drop_arena", "failed_map_root", "failed_new"}
+  THEN <<op.op, Fld(op, "kind"), Fld(op, "g"), Fld(op, "cont"), Fld(op, "fault"), ObsPhase(s), ObsPhase(s2),
          Count(s) - Count(s2) > 0, s.gray # <<>>, s.grayAgain # <<>>, s.rootNT,
-         IF op.op = "finalize" THEN <<Col(s2, op.t), op.t # NoObj>> ELSE <<>> >>
+         IF op.op = "finalize" THEN <<Col(s2, op.t), op.t # NoObj>> ELSE <<>>,
+         Fld(op, "n"), Fld(op, "mode") >>
   ELSE <<op.op, Fld(op, "path"), Fld(op, "via"), ObsPhase(s), Col(s, p), Col(s, c),
-         IF p = NoObj THEN "-" ELSE s.kind[p], PosOf(s, p), PosOf(s, c), s2.gray # s.gray \/ s2.grayAgain # s.grayAgain>>
+         IF p = NoObj THEN "-" ELSE s.kind[p], PosOf(s, p), PosOf(s, c), s2.gray # s.gray \/ s2.grayAgain # s.grayAgain,
+         Fld(op, "panic")>>
 
 \* listed as ACTION_CONSTRAINT: prints the first behaviour per class and worker; always TRUE
 EmitClasses ==
